@@ -291,7 +291,11 @@ def leaves():
     # str
     L += [["s", "a", 0], ["s", "a", 1], ["s", "a", 2], ["s", "lit", "123"], ["s", "lit", "a b\r\nc"],
           ["s", "e", 1], ["s", "esc", "\\u65e5\\u672c\\u8a9e"], ["s", "esc", "\\U0001f600"],
-          ["s", "esc", "\\x00"], ["s", "surrogate", 1]]
+          ["s", "esc", "\\x00"], ["s", "surrogate", 1],
+          # text that begins with U+FEFF (a byte-order mark is data here, not an encoding signature)
+          ["s", "esc", "\\ufeff"], ["s", "esc", "\\ufeffabc"], ["s", "esc", "\\ufeff\\ufeffx"],
+          ["s", "esc", "\\ufffe"], ["s", "esc", "a\\u0300"], ["s", "esc", "\\x85\\u2028"]]
+    L += [["b", "hex", "efbbbf41"], ["b", "hex", "fffe4100"]]
     for n in (9, 10, 11, 399, 400, 401, 5000):
         L.append(["s", "a", n])
     L += [["s", "e", 5], ["s", "ae", 4], ["s", "ae", 5], ["s", "e", 200], ["s", "ae", 199], ["s", "ae", 200],
@@ -339,6 +343,10 @@ def leaves():
 CORE = [["b", "a", 1], ["s", "lit", "123"], ["i", "lit", "1"], ["c", "True"], ["c", "None"], ["c", "1.5"],
         ["sub", "MyInt", ["i", "lit", "5"]], ["s", "e", 1], ["i", "pow10", 1, 400]]
 
+# values whose uncompressed form exceeds memcached's default 1 MiB item size while the compressed form is tiny
+BIG = [["b", "a", 1024 * 1024], ["b", "a", 1024 * 1024 + 1], ["b", "a", 3 * 1024 * 1024], ["s", "a", 1024 * 1024 + 1],
+       ["list", [["b", "a", 2 * 1024 * 1024]]]]
+
 EMPTIES = [["list", []], ["tuple", []], ["dict", []], ["set", []], ["fset", []], ["obj", []]]
 
 
@@ -367,6 +375,7 @@ def values(depth):
             new += wrap(x)
         allv += new
         level = new
+    allv += BIG  # not wrapped: each costs milliseconds per configuration
     seen = set()
     out = []
     for s in allv:
